@@ -178,3 +178,22 @@ func C06ScanErr(r io.Reader) (out []string, err error) {
 	}
 	return out, sc.Err()
 }
+
+// MAKE-APPEND controls (C15).
+type c15edge struct{ comment []string }
+
+func (e *c15edge) AddComment(s string) { e.comment = append(e.comment, s) }
+
+func C15MakeAppend(src, dst *c15edge) {
+	dst.comment = make([]string, len(src.comment))
+	for _, s := range src.comment {
+		dst.AddComment(s)
+	}
+}
+
+func C15MakeIndex(src, dst *c15edge) {
+	dst.comment = make([]string, len(src.comment))
+	for i, s := range src.comment {
+		dst.comment[i] = s
+	}
+}
